@@ -835,9 +835,50 @@ def bounds_of(tasks):
     return seen
 
 
+def c18_pipeline_scenarios(coll, stats):
+    """C18 through the Evolver with declared dependencies (the four-app
+    project of C09): the two pending evolutions of app va both add a field
+    to va_item; whatever unit the dependencies put between them, the table
+    is rewritten once - unless a *migration* has to run between the two
+    (migrations split the run into separate batches)."""
+    from vf.checks import c09_pipeline as CP
+    n = 0
+    for deps in CP.configs(1):
+        units, edges = CP.required_edges(deps, set())
+        if not CP.acyclic(units, edges):
+            continue
+        # a migration between a1 and a2?
+        between = False
+        for (h, (kind, t)) in deps:
+            if 'MIGRATIONS' in kind and h[0] == 'va':
+                between = True
+        img = CP.start_image(False)
+        CP.install(2, deps)
+        B.restore(img, 'default')
+        B.reset_globals()
+        tracer = O.Tracer('default')
+        res = D.d2_all(tracer=tracer)
+        n += 1
+        if not res.ok:
+            continue
+        rb = [t for t in D.rebuilds(tracer.effects()) if t == 'va_item']
+        bound = 2 if between else 1
+        if len(rb) > bound:
+            coll.add('C18|run-not-merged|pipeline|%s' % CP.dep_shape(deps),
+                     {'scenario': 'pipeline',
+                      'deps': [[list(h), [k, list(t) if isinstance(t, tuple)
+                                          else t]] for (h, (k, t)) in deps]},
+                     {'rebuilds_of_va_item': len(rb), 'bound': bound})
+    stats['c18_pipeline_configs'] = n
+
+
 def run(tier, seed, confirm=True, prop='C03'):
     t0 = time.time()
     tasks, total, c3, c18 = run_both(tier, seed)
+    if prop == 'C18':
+        from vf import bootstrap
+        bootstrap.setup()
+        c18_pipeline_scenarios(c18, total)
     coll = c3 if prop == 'C03' else c18
     coverage = {
         'states': max(1, total['end_states']),
@@ -884,6 +925,16 @@ def run(tier, seed, confirm=True, prop='C03'):
 def replay(path, prop='C03'):
     doc = common.load_replay(path)
     r = doc['replay']
+    if r.get('scenario') == 'pipeline':
+        coll = findings.Collector('C18')
+        c18_pipeline_scenarios(coll, {})
+        for fp in coll.by_fp:
+            print('  %s' % fp)
+        if doc['fingerprint'] in coll.by_fp:
+            print('REPRODUCED %s' % doc['fingerprint'])
+            return 1
+        print('NOT-REPRODUCED')
+        return 0
     steps = [tuple(s) for s in r['steps']]
     pr = PathRunner(r['start'], r.get('rows'), ('W2', 'W5', 'W3', 'W4'))
     w1 = pr.w1_full(steps)
